@@ -284,6 +284,12 @@ func TestC10HandshakeCancellation(t *testing.T) {
 				}
 				if !canceled && step >= cancelStep {
 					acts = append(acts, schedAction{"CANCEL", func() { canceled = true; tc = time.Now(); cancel() }})
+					// ... or at the very moment a parked operation goes on (no quiescence in between): the
+					// cancellation then races with whatever that operation completes, the end of the handshake included.
+					for _, w := range sched.Pending() {
+						w := w
+						acts = append(acts, schedAction{"release:" + w.Name + "+CANCEL", func() { sched.Release(w); canceled = true; tc = time.Now(); cancel() }})
+					}
 				}
 				if len(acts) == 0 {
 					if time.Since(start) > time.Minute {
@@ -302,6 +308,12 @@ func TestC10HandshakeCancellation(t *testing.T) {
 				return map[string]any{"kind": "cancelled-handshake", "server_answers": serverAnswers, "peer_stops_reading_after_hello": stallAfterHello, "via_dial": viaDial, "schedule": strings.Join(trace, " "), "error": fmt.Sprint(err)}
 			})
 			if err == nil {
+				// The handshake won the race against the cancellation (or there was none): then the client is a
+				// working one. A client handed out over a connection the library itself has closed is neither a
+				// failed handshake nor a usable client.
+				if n := e.conn.NumCloseCalls(); n > 0 {
+					rt.Fatalf("the handshake returned a client (no error) although the library closed the connection (%d Close calls; cancelled: %v, IsClosed: %v); schedule %v", n, canceled, client.IsClosed(), trace)
+				}
 				client.Close()
 				return
 			}
